@@ -22,6 +22,9 @@ type Policy struct {
 	Impersonate bool
 	// EarlyRC: announce round r+1 as soon as round r has a proposal (do not wait for an honest one).
 	EarlyRC bool
+	// StaleJust: when leading round r without a round-change quorum for r, fill the justification
+	// with the correct operators' round-changes of earlier rounds (which must not count).
+	StaleJust bool
 }
 
 func (w *World) inject(key string, sm *specqbft.SignedMessage, to spectypes.OperatorID) {
@@ -140,6 +143,26 @@ func (w *World) byzantine() {
 							rcs[k] = x
 						}
 						rcs[b] = w.byzRC(v, r, face)
+						if p.StaleJust {
+							// prefer, per correct signer, a round-change that does not contradict the face
+							// value: the current round's if it is unprepared or prepared on the face value,
+							// else an older (stale) one of that signer with that property
+							fits := func(x *specqbft.SignedMessage) bool {
+								return x != nil && (!x.Message.RoundChangePrepared() || x.Message.Root == root)
+							}
+							for i := 1; i <= c.N; i++ {
+								id := spectypes.OperatorID(i)
+								if id == b || fits(rcs[id]) {
+									continue
+								}
+								for pr := r - 1; pr >= 2; pr-- {
+									if x := v.rcs[pr][id]; fits(x) {
+										rcs[id] = x
+										break
+									}
+								}
+							}
+						}
 						if uint64(len(rcs)) >= c.KeySet.Threshold {
 							list := ordered(rcs, c.N)
 							var prepJ [][]byte
@@ -222,7 +245,7 @@ func Policies(honest []spectypes.OperatorID) []*Policy {
 			name += string(face[h])
 		}
 		out = append(out, &Policy{Name: "face" + name, Face: face})
-		out = append(out, &Policy{Name: "face" + name + "+eager+earlyRC", Face: face, Eager: true, EarlyRC: true})
+		out = append(out, &Policy{Name: "face" + name + "+eager+earlyRC", Face: face, Eager: true, EarlyRC: true, StaleJust: true})
 		if mask == 0 || mask == 1<<n-1 || mask == 1 || mask == 3 {
 			out = append(out, &Policy{Name: "face" + name + "+eager+impersonate", Face: face, Eager: true, Impersonate: true})
 		}
@@ -239,7 +262,7 @@ func PoliciesLimited(honest []spectypes.OperatorID) []*Policy {
 			face[h] = f(i)
 		}
 		out = append(out, &Policy{Name: "lim-" + name, Face: face})
-		out = append(out, &Policy{Name: "lim-" + name + "+eager+earlyRC", Face: face, Eager: true, EarlyRC: true})
+		out = append(out, &Policy{Name: "lim-" + name + "+eager+earlyRC", Face: face, Eager: true, EarlyRC: true, StaleJust: true})
 	}
 	mk("allA", func(int) byte { return 'A' })
 	mk("allB", func(int) byte { return 'B' })
